@@ -12,6 +12,7 @@ fn main() {
         "from_ip" => comp::from_ip(&args[2..]),
         "txn" => comp::txn(&args[2..]),
         "storage" => comp::storage(&args[2..]),
+        "token" => comp::token(&args[2..]),
         other => {
             eprintln!("unknown subcommand {other}");
             2
